@@ -1672,14 +1672,14 @@ def _ordered_merge(left: DataFrame,
     if left_map is None:
         for k in left_fields_to_map:
             dest_k = k
-            if k in dest:
+            if k in right_fields_to_map:
                 dest_k += left_suffix
             dest_f = left[k].create_like(dest, dest_k)
             ops.chunked_copy(left[k], dest_f, chunk_size)
     else:
         for k in left_fields_to_map:
             dest_k = k
-            if k in dest:
+            if k in right_fields_to_map:
                 dest_k += left_suffix
             dest_f = left[k].create_like(dest, dest_k)
             if left[k].indexed:
@@ -1690,14 +1690,14 @@ def _ordered_merge(left: DataFrame,
     if right_map is None:
         for k in right_fields_to_map:
             dest_k = k
-            if k in dest:
+            if k in left_fields_to_map:
                 dest_k += right_suffix
             dest_f = right[k].create_like(dest, dest_k)
             ops.chunked_copy(right[k], dest_f, chunk_size)
     else:
         for k in right_fields_to_map:
             dest_k = k
-            if k in dest:
+            if k in left_fields_to_map:
                 dest_k += right_suffix
             dest_f = right[k].create_like(dest, dest_k)
             if right[k].indexed:
